@@ -287,6 +287,124 @@ class HasNext(Unit):
         ctx.eng.explore(thunk)
 
 
+class RouteSplitGeneric(Unit):
+    """_evaluate_route on a routes list of any length whose selected route has any length and any content."""
+    name = "C._evaluate_route.generic"
+    functions = ["orquesta.conducting.WorkflowConductor._evaluate_route"]
+    obligations = {
+        "C01.route.split_any": {"props": ["C01", "C18"], "text":
+            "for a routes list of any length N and a previous route of any length and content: the previous route is returned and nothing is written unless the target is a split task outside a cycle and the transition is not yet in the previous route; then exactly one route = previous route + [this transition] is appended and N is returned; no existing route (the previous one included) is modified, removed or replaced, and only the previous route is read"},
+    }
+    assumptions = [
+        "routes list: abstract sequence of symbolic length N read through __getitem__(prev_route) / __len__ and extended through append only (any other access: undecided); the previous route is a symbolic-length list of opaque transition ids",
+        "spec.tasks.is_split_task / graph.in_cycle: assumed contracts (arbitrary truth values of the target id); json_util.deepcopy: assumed contract (fresh structural copy)",
+        "the transition id is formatted from concrete ids (string formatting is not modelled symbolically): one named transition, arbitrary route content",
+    ]
+    trusted = ["z3 5.1", "pyvc interpreter"]
+    timeout_ms = 20000
+
+    def splits(self, tier):
+        return ["generic"]
+
+    def run_split(self, ctx, split):
+        from pyvc.sym import SList
+
+        def thunk(e):
+            e.overrides[json_util.deepcopy] = cbase.deepcopy_model
+            I = z3.IntSort()
+            relem = z3.Function(S.fresh_name("route_elem"), I, I)
+            m = z3.Int(S.fresh_name("route_len"))
+            n = z3.Int(S.fresh_name("n_routes"))
+            prev = z3.Int(S.fresh_name("prev_route"))
+            e.assume(z3.And(m >= 0, n >= 1, prev >= 0, prev < n))
+            old_get = lambda j: SConst(relem(j if not isinstance(j, int) else z3.IntVal(j)))
+            old = SList(m, old_get, "prev_route_details")
+            split_z, cyc_z = S.mk_bool("is_split"), S.mk_bool("in_cycle")
+            e.register_input("is_split", split_z)
+            e.register_input("in_cycle", cyc_z)
+            log = {"get": [], "append": []}
+
+            def getitem(eng, k):
+                log["get"].append(k)
+                kz = k.z if isinstance(k, SInt) else k
+                if not (isinstance(kz, int) or z3.is_int(kz)) or not z3.is_true(z3.simplify(kz == prev)):
+                    raise S.Unsupported("a route other than the previous one is read")
+                return old
+
+            def append(eng, v):
+                log["append"].append(v)
+
+            routes = AbstractObj("routes", __getitem__=Stub("__getitem__", getitem), append=Stub("append", append),
+                                 __len__=Stub("__len__", lambda eng: SInt(n + len(log["append"]))))
+            spec = AbstractObj("spec", tasks=AbstractObj("spec.tasks", is_split_task=Stub("is_split", lambda eng, x: split_z)))
+            graph = AbstractObj("graph", in_cycle=Stub("in_cycle", lambda eng, x: cyc_z))
+            c, ws = cbase.new_conductor(st.RUNNING, routes=routes, graph=graph, spec=spec)
+            tr = ("a", "n", 0, {"criteria": [], "ref": 0})
+            tid = "a__t0"
+            r = e.call(conducting.WorkflowConductor._evaluate_route, [c, tr, SInt(prev)], {})
+            ctx.canary()
+            # ghost: is the transition already in the previous route (evaluated on the entry value of the route)
+            q = z3.Int(S.fresh_name("q"))
+            present = z3.Exists([q], z3.And(0 <= q, q < m, relem(q) == INTERN.id_of(tid)))
+            new_needed = z3.And(split_z.z, z3.Not(cyc_z.z), z3.Not(present))
+            rz = r.z if isinstance(r, SInt) else z3.IntVal(r)
+            cl = []
+            # frame: the previous route object is untouched (same length, same element function)
+            cl.append(z3.BoolVal(old.get is old_get))
+            cl.append(old.length == m)
+            cl.append(z3.BoolVal(ws.routes is routes))
+            napp = len(log["append"])
+            cl.append(z3.BoolVal(napp <= 1))
+            cl.append(new_needed == z3.BoolVal(napp == 1))
+            if napp == 1:
+                v = log["append"][0]
+                ok_v = isinstance(v, SList) and v is not old
+                cl.append(z3.BoolVal(ok_v))
+                if ok_v:
+                    j = z3.Int(S.fresh_name("j"))
+                    vj = v.get(j)
+                    vz = vj.z if isinstance(vj, SConst) else z3.IntVal(INTERN.id_of(vj))
+                    cl.append(v.length == m + 1)
+                    cl.append(z3.ForAll([j], z3.Implies(z3.And(0 <= j, j < m), vz == relem(j))))
+                    vl = v.get(m)
+                    cl.append((vl.z if isinstance(vl, SConst) else z3.IntVal(INTERN.id_of(vl))) == INTERN.id_of(tid))
+                cl.append(rz == n)
+            else:
+                cl.append(rz == prev)
+            ctx.oblige("C01.route.split_any", z3.And(cl), None, {"appended": napp})
+
+        ctx.eng.explore(thunk)
+
+    def native(self, inputs):
+        """Counter-model replay: the real method on a real conductor whose previous route does / does not
+        already hold the transition, with the model's answers for is_split_task / in_cycle."""
+        import types
+        split, cyc = bool(inputs.get("is_split")), bool(inputs.get("in_cycle"))
+        cases, ok = [], True
+        for in_route in (False, True):
+            before = [[], ["x__t0"] + (["a__t0"] if in_route else [])]
+            routes = [list(r) for r in before]
+            spec = types.SimpleNamespace(tasks=types.SimpleNamespace(is_split_task=lambda t: split))
+            graph = types.SimpleNamespace(in_cycle=lambda t: [["n"]] if cyc else [])
+            c, ws = cbase.new_conductor(st.RUNNING, routes=routes, graph=graph, spec=spec)
+            try:
+                r = c._evaluate_route(("a", "n", 0, {"criteria": [], "ref": 0}), 1)
+            except Exception as e:
+                cases.append({"routes": before, "raised": repr(e)})
+                ok = False
+                continue
+            if split and not cyc and not in_route:
+                good = r == 2 and ws.routes == before + [before[1] + ["a__t0"]]
+            else:
+                good = r == 1 and ws.routes == before
+            cases.append({"routes_before": before, "routes_after": ws.routes, "returned": r, "as_specified": good})
+            ok = ok and good
+        return {"cases": cases, "ok": ok}
+
+    def clause(self, name):
+        return (lambda v: v["ok"]) if name == "C01.route.split_any" else None
+
+
 class WorkflowFunctions(Unit):
     bounded = True
     name = "X.workflow_functions"
